@@ -7,7 +7,7 @@ import itertools
 from ..lib import Facts, calls_in, own_nodes, stmt_of
 from ..model import AnalysisError, FuncInfo
 from ..report import Run
-from ..terms import TermCtx, contains, show, strip_sites, unphi_terms
+from ..terms import walk_all, TermCtx, contains, show, strip_sites, unphi_terms
 from .c07 import check_env_merge
 
 EXPLANATION = (
@@ -138,8 +138,20 @@ def check(run: Run) -> None:
             kinds.add("dataclass")
     run.check(kinds == {"dict", "dataclass"}, "C08.R1", fi, fi.node, "attribute has the cases dict literal / dataclass", f"attribute cases: {sorted(kinds)}")
     # key lookup in the dict-literal case compares the key constant's value with the attribute name
-    comps = [n for n in own_nodes(fi) if isinstance(n, ast.ListComp)]
-    ok = any("enumerate" in ast.unparse(c) and ".value == " in ast.unparse(c) for c in comps)
+    ok = False
+    keys_t = ("attr", ("attr", V, "value"), "keys")
+    for n, k, v in st:
+        for sub in walk_all(v):
+            if isinstance(sub, tuple) and sub and sub[0] == "comp" and len(sub[3]) == 1:
+                it, conds = sub[3][0]
+                en = ("app", ("global", "builtins.enumerate"), (keys_t,), ())
+                if it != en or sub[2] != ("index", ("elem", en), 0) or len(conds) != 1:
+                    continue
+                c_ = conds[0]
+                kv = ("attr", ("index", ("elem", en), 1), "value")
+                names = (("attr", V, "attr"), ("attr", nodep, "attr"))
+                if c_[0] == "op" and c_[1] == "Compare:Eq" and ((c_[2][0] == kv and c_[2][1] in names) or (c_[2][1] == kv and c_[2][0] in names)):
+                    ok = True
     run.check(ok, "C08.R1", fi, fi.node, "dict key is matched by value equality with the attribute name", "dict-literal attribute does not select the key equal to the attribute name")
 
     # the type of a processed call is recorded for the node handed back *and* for the node it replaces
@@ -169,9 +181,10 @@ def check(run: Run) -> None:
         ok = rt[0] == "app" and rt[1][1].endswith("clone_with_new_ast") and len(rt[2]) == 3
         ty = rt[2][2] if ok else None
         remap = None
-        for c in calls_in(f):
-            if isinstance(c.func, ast.Name) and c.func.id == "remap_from_lambda":
-                remap = strip_sites(fo.term_of(c))
+        for sub in walk_all(rt):
+            if sub[0] == "app" and sub[1][0] == "global" and sub[1][1].endswith("remap_from_lambda"):
+                remap = sub
+                break
         rtn = ("index", remap, 2) if remap else None
         if op == "Select":
             good = ty == rtn
@@ -217,6 +230,9 @@ def check(run: Run) -> None:
     reg = any(isinstance(n, ast.Assign) and isinstance(n.targets[0], ast.Subscript) and isinstance(n.targets[0].slice, ast.Constant) and n.targets[0].slice.value == "len" and "my_len" in ast.unparse(n.value) for n in own_nodes(ld))
     run.check(ok and reg, "C08.R3", ld, ld.node, "len is registered with return type int", "len is not registered as a function returning int")
     pm = m.find_func("process_method_call", in_module=mod)
+    from ..lib import site_owner
+
+    pm, _inv = site_owner(m, ctx, pm, "resolve_type_vars")
     fpm = ctx.analysis(pm)
     rs = [c for c in calls_in(pm) if isinstance(c.func, ast.Name) and c.func.id == "resolve_type_vars"]
     ok = len(rs) == 1
@@ -232,9 +248,12 @@ def check(run: Run) -> None:
     fd = m.find_func("_fill_in_default_arguments", in_module=mod)
     ffd = ctx.analysis(fd)
     rt = strip_sites(ffd.return_term())
-    tys = unphi_terms(rt[1][1]) if rt[0] == "tuple" and len(rt[1]) == 2 else []
+    from ..lib import tuple_component
+
+    ty_c = tuple_component(rt, 1, 2)
+    tys = unphi_terms(ty_c) if ty_c is not None else []
     ok = ("global", "typing.Any") in tys and any(t[0] == "index" and t[2] == "return" and t[1][0] == "app" and t[1][1][1].endswith("get_type_hints") for t in tys) and len(tys) == 2
-    run.check(ok, "C08.R3", fd, fd.node, "declared return type is get_type_hints(func)['return'], Any when absent", f"the return type is {show(rt[1][1])[:120] if rt[0] == 'tuple' else show(rt)[:120]}")
+    run.check(ok, "C08.R3", fd, fd.node, "declared return type is get_type_hints(func)['return'], Any when absent", f"the return type is {show(ty_c)[:120] if ty_c is not None else show(rt)[:120]}")
     # results
     frt = strip_sites(TermCtx(m, max_depth=1, opaque={"lookup_type"}).analysis(outer).return_term())
     ok = frt[0] == "tuple" and len(frt[1]) == 3 and frt[1][1][0] == "tvisit" and frt[1][1][2] == ("param", outer.pos_params[2]) and frt[1][2][0] == "app" and frt[1][2][2][-1] == ("param", outer.pos_params[2]) and frt[1][0][0] == "attr" and frt[1][0][2] == "_stream"
